@@ -163,6 +163,9 @@ pub enum Strategy {
     Solo(Vec<usize>, usize),
     /// PCT: random priorities, `changes` priority-change points
     Pct { prio: Vec<usize>, changes: Vec<usize>, low: usize },
+    /// schedule of ACCESSES (thread id per atomic access, as emitted by the FINE model); call starts
+    /// are not counted.  (next index, schedule)
+    Access(usize, Vec<usize>),
 }
 
 pub struct ExecResult {
@@ -375,6 +378,18 @@ pub fn execute(scn: &Scenario, strat: &mut Strategy, opts: &ExecOpts, out_setup:
                                 default(last)
                             }
                         }
+                    } else {
+                        default(last)
+                    }
+                }
+                Strategy::Access(pos, sched) => {
+                    if *pos < sched.len() && ids.contains(&sched[*pos]) {
+                        let t = sched[*pos];
+                        let k = enabled.iter().find(|e| e.0 == t).unwrap().1;
+                        if k != hook::K_CALL {
+                            *pos += 1;
+                        }
+                        t
                     } else {
                         default(last)
                     }
